@@ -1860,6 +1860,12 @@ REAL_SPECS = [
     {"incoming": 0, "outgoing": 2, "first": "server"},
     {"incoming": 2, "outgoing": 0, "first": "client"},
     {"incoming": 0, "outgoing": 0, "first": "server"},
+    # failed connection attempts (incoming reset at the handshake, incoming garbage, outgoing handshake failure) before and
+    # between the real peers; afterwards the ordinary scenario: stop must still end ALL connections
+    {"incoming": 1, "outgoing": 0, "first": "server", "failed": ["rst"]},
+    {"incoming": 2, "outgoing": 1, "first": "server", "failed": ["garbage", "rst"], "failed_between": ["out_fail"]},
+    {"incoming": 2, "outgoing": 0, "first": "server", "failed": ["out_fail"], "failed_between": ["rst", "rst"]},
+    {"incoming": 1, "outgoing": 1, "first": "client", "failed": ["rst", "garbage"], "failed_between": ["garbage"]},
 ]
 
 
@@ -1890,7 +1896,78 @@ def run_real(spec: dict, timeout: float = 30.0) -> dict:
             srv.start()
             made.append(srv)
             clients, others = [], []
+            failed = list(spec.get("failed", []))       # failed connection attempts: before the real peers ...
+            between = list(spec.get("failed_between", []))   # ... and between them
+            res["failed"] = []
+
+            def managed_ok():
+                """every connection the socket manager still manages is open (a failed attempt leaves no entry behind)"""
+                from qmi.core.messaging import _PeerTcpConnection
+                sm = srv._message_router._socket_manager
+                deadline = _rtime_monotonic() + 2.0
+                while True:
+                    wr = [x for x in list(sm._socket_wrappers) if isinstance(x, _PeerTcpConnection)]
+                    stale = [x.peer_context_alias for x in wr if x._sock.fileno() == -1]
+                    ghost = [k for k, v in list(sm._peer_context_map.items()) if v not in wr]
+                    if not stale and not ghost:
+                        return None
+                    if _rtime_monotonic() > deadline:
+                        return f"closed connections still managed: {stale}; map entries without a managed connection: {ghost}"
+                    _rtime_sleep(0.01)
+
+            def attempt(kind):
+                """a connection attempt that fails: incoming reset at the handshake, incoming garbage, outgoing handshake failure"""
+                import struct
+                if kind == "rst":
+                    # park the socket-manager thread (through its own run_in_thread), connect and reset, let it go on:
+                    # the accepted socket is dead when the handshake is sent
+                    gate, parked = _rt.Event(), _rt.Event()
+                    srv._message_router._thread.run_in_thread(lambda: (parked.set(), gate.wait(5.0)))
+                    parked.wait(5.0)
+                    raw = socket.create_connection(("127.0.0.1", port), timeout=5.0)
+                    raw.setsockopt(socket.SOL_SOCKET, socket.SO_LINGER, struct.pack("ii", 1, 0))
+                    raw.close()
+                    _rtime_sleep(0.02)
+                    gate.set()
+                    out = "reset"
+                elif kind == "garbage":
+                    raw = socket.create_connection(("127.0.0.1", port), timeout=5.0)
+                    raw.sendall(b"\x00\xff not a qmi handshake " * 3)
+                    _rtime_sleep(0.02)
+                    raw.close()
+                    out = "garbage"
+                else:   # "out_fail": the peer accepts and hangs up before any handshake
+                    lst = socket.socket()
+                    lst.bind(("127.0.0.1", 0))
+                    lst.listen(1)
+
+                    def hangup():
+                        try:
+                            cs_, _ = lst.accept()
+                            cs_.close()
+                        except OSError:
+                            pass
+                    ht = _rt.Thread(target=hangup, daemon=True)
+                    ht.start()
+                    try:
+                        srv.connect_to_peer("ghost", "127.0.0.1:%d" % lst.getsockname()[1])
+                        out = "connected?!"
+                    except BaseException as e:  # noqa
+                        out = type(e).__name__
+                    ht.join(2.0)
+                    lst.close()
+                # let the socket manager digest it, then look at what it still manages
+                done = _rt.Event()
+                srv._message_router._thread.run_in_thread(done.set)
+                done.wait(5.0)
+                res["failed"].append((kind, out, managed_ok()))
+
+            for kind in failed:
+                attempt(kind)
             for i in range(spec["incoming"]):
+                if i == 1:
+                    for kind in between:
+                        attempt(kind)
                 c = QMI_Context(f"cl{i}")
                 c.start()
                 made.append(c)
@@ -1905,10 +1982,32 @@ def run_real(spec: dict, timeout: float = 30.0) -> dict:
                 srv.connect_to_peer(f"o{i}", "127.0.0.1:%d" % op)
                 srv.make_peer_context_proxy(f"o{i}").get_version(rpc_timeout=5.0)
                 others.append(o)
+            if spec["incoming"] <= 1:
+                for kind in between:
+                    attempt(kind)
             res["steps"].append("established")
             order = [srv] + clients + others if spec["first"] == "server" else clients + others + [srv]
+            res["peers_after_stop"] = []
             for c in order:
                 c.stop()
+                if c is srv and spec["first"] == "server":
+                    # "stop ends ALL its connections": every client sees the end of its connection and a call through a
+                    # stale proxy fails promptly (a delivery error, not the rpc time-out)
+                    from qmi.core.exceptions import QMI_RpcTimeoutException
+                    for cl in clients:
+                        deadline = _rtime_monotonic() + 3.0
+                        while cl.has_peer_context("c1") and _rtime_monotonic() < deadline:
+                            _rtime_sleep(0.01)
+                        gone = not cl.has_peer_context("c1")
+                        t0 = _rtime_monotonic()
+                        try:
+                            cl.make_peer_context_proxy("c1").get_version(rpc_timeout=2.0)
+                            call = "ok"
+                        except QMI_RpcTimeoutException:
+                            call = "timeout"
+                        except BaseException as e:  # noqa
+                            call = type(e).__name__
+                        res["peers_after_stop"].append((cl.name, gone, call, round(_rtime_monotonic() - t0, 2)))
             res["steps"].append("stopped")
             # the process must be able to start a context of the same configuration at once
             try:
@@ -1949,10 +2048,16 @@ def run_real(spec: dict, timeout: float = 30.0) -> dict:
             body()
         except BaseException as e:  # noqa
             res["error"] = f"{type(e).__name__}: {e}"
-    th = _rt.Thread(target=guarded, daemon=True)
-    th.start()
-    th.join(timeout)
-    res["hang"] = th.is_alive()
+    import logging
+    prev = logging.root.manager.disable
+    logging.disable(logging.CRITICAL)          # failed attempts are logged with tracebacks by QMI; keep the check's output clean
+    try:
+        th = _rt.Thread(target=guarded, daemon=True)
+        th.start()
+        th.join(timeout)
+        res["hang"] = th.is_alive()
+    finally:
+        logging.disable(prev)
     return res
 
 
@@ -1990,14 +2095,45 @@ def reuse_before_bind():
     return out
 
 
+def managed_after_handshake():
+    """source check: _SocketManager.add_incoming_connection registers the connection (`_socket_wrappers.append`,
+    `_peer_context_map[...] =`) only after attach / send_handshake succeeded"""
+    import ast
+    import inspect
+    import textwrap
+    from qmi.core.messaging import _SocketManager
+    tree = ast.parse(textwrap.dedent(inspect.getsource(_SocketManager.add_incoming_connection)))
+    hs, reg = [], []
+    for node in ast.walk(tree):
+        if isinstance(node, ast.Call) and isinstance(node.func, ast.Attribute):
+            if node.func.attr == "send_handshake":
+                hs.append(node.lineno)
+            if node.func.attr == "append" and isinstance(node.func.value, ast.Attribute) and node.func.value.attr == "_socket_wrappers":
+                reg.append(node.lineno)
+        if isinstance(node, ast.Assign) and any(isinstance(t, ast.Subscript) and isinstance(t.value, ast.Attribute) and
+                                                 t.value.attr == "_peer_context_map" for t in node.targets):
+            reg.append(node.lineno)
+    if not hs or not reg:
+        raise RuntimeError(f"managed_after_handshake: source shape not understood (handshake at {hs}, registration at {reg})")
+    return min(reg) > max(hs)
+
+
 def oracle_real(res: dict):
     sp = res["spec"]
-    tag = f"{sp['first']}-first:in{sp['incoming']}:out{sp['outgoing']}"
+    tag = f"{sp['first']}-first:in{sp['incoming']}:out{sp['outgoing']}" + (":after-failed-attempts" if sp.get("failed") or sp.get("failed_between") else "")
     if res.get("hang"):
         return [(f"real:hang:{tag}", f"real-socket scenario did not finish within its deadline after {res['steps']}", 0)]
     if "error" in res:
         return [(f"real:error:{tag}", f"real-socket scenario raised {res['error']} after {res['steps']}", 0)]
     bad = []
+    for kind, out, managed in res.get("failed", []):
+        if managed:
+            bad.append((f"real:failed-attempt-leaves-entry:{kind}", f"after a failed connection attempt ({kind}: {out}) the socket manager has {managed}", 0))
+    for name, gone, call, dt in res.get("peers_after_stop", []):
+        if not gone:
+            bad.append(("real:peer-not-disconnected", f"{name} still lists the stopped context as a peer 3 s after its stop()", 0))
+        if call in ("ok", "timeout"):
+            bad.append((f"real:stale-proxy-{call}", f"a call from {name} to the stopped context: {call} after {dt} s (must fail promptly)", 0))
     if res.get("restart") != "ok":
         bad.append((f"real:cannot-start-again:{tag}", f"a new context with the same tcp_server_port right after stop(): {res.get('restart')}", 0))
     for k, v in res.get("reuse", {}).items():
@@ -2958,6 +3094,13 @@ class C12(Prop):
                 res.failures.append(Failure(f"real:reuseaddr-set-after-bind:{fn}",
                                             f"MessageRouter.{fn}: the address-reuse socket option is set after bind() (no effect on that bind: a port in "
                                             f"TIME_WAIT is refused)", {"kind": "real-ast", "fn": fn}))
+        ok = managed_after_handshake()
+        res.count(f"incoming_connection_managed_after_handshake_{ok}")
+        if not ok and not self._seen.get("real:connection-managed-before-handshake"):
+            self._seen["real:connection-managed-before-handshake"] = 1
+            res.failures.append(Failure("real:connection-managed-before-handshake",
+                                        "_SocketManager.add_incoming_connection registers the connection before the handshake was sent: a failed "
+                                        "attempt can leave a closed connection in the managed list", {"kind": "real-ast2"}))
         for _ in range(rounds):
             for spec in REAL_SPECS:
                 r = run_real(spec)
@@ -3128,6 +3271,8 @@ class C12(Prop):
         if rp.get("kind") == "real-ast":
             ok = reuse_before_bind().get(rp["fn"], True)
             return None if ok else Failure(f"real:reuseaddr-set-after-bind:{rp['fn']}", "address-reuse option set after bind()", rp)
+        if rp.get("kind") == "real-ast2":
+            return None if managed_after_handshake() else Failure("real:connection-managed-before-handshake", "registered before the handshake", rp)
         if rp.get("kind") == "real":
             bad = oracle_real(run_real(rp["spec"]))
             return Failure(bad[0][0], f"{bad[0][0]}: {bad[0][1]}", rp) if bad else None
